@@ -96,4 +96,158 @@ theorem partEnabled_end (c : Cfg) (k : Comp) (hks : k ≠ .special) (hd : c.debu
     · rw [hba, slice_self, h0 hc]; rfl
     · intro x _ _; left; exact hba
 
+/-- `parse_digits` from the state a `peek` left behind (on a non-separator) is `parse_digits` from the state before -/
+theorem parseDigitsLoop_after_peek (c : Cfg) (k : Comp) (r : Nat) (hk : c.skip k ≠ .unreachable) (b1 b0 : Bytes)
+    (v : Option Nat) (hv : Bytes.Valid b1) (hp : peek c k b1 = .ok (v, b0))
+    (hN : ∀ x, b0.slc[b0.index]? = some x → c.isSep x = false) (n : Nat) :
+    parseDigitsLoop c k r (n + 1) b0 = parseDigitsLoop c k r (n + 1) b1 := by
+  have hs := peek_spec c k b1 b0 v hv hp
+  rw [parseDigitsLoop.eq_2, parseDigitsLoop.eq_2, hp, peek_at_nonsep c k b0 hk hN, ← hs.2.2.2.2.2.2]
+
+/-- the integer run behind `is_consumed`'s `peek`: the `peek` lands on a non-separator and the run ends at the
+terminator of the integer part -/
+theorem int_after_peek (c : Cfg) (k : Comp) (hks : k ≠ .special) (hd : c.debug = false) (hf : c.feats.format = true)
+    (hreach : ∀ k, c.skip k ≠ .unreachable) (r : Nat) (hsepr : ∀ x, c.isSep x = true → charToDigit x r = none)
+    (hsepd : ∀ x, c.isSep x = true → c.isDigit x = false) (s : List Nat) (a z : Nat)
+    (hP : PartEnabled c k r s a z) (b1 b0 : Bytes) (v : Option Nat) (hbs : b1.slc = s) (hba : b1.index = a)
+    (h0 : c.iterContiguous k = false → Bytes.iterCount c k b1 = 0) (hp : peek c k b1 = .ok (v, b0)) :
+    (∀ x, s[b0.index]? = some x → c.isSep x = false) ∧ ∀ e ds, Run c k r b0 e ds → e.index = z := by
+  have hv1 : Bytes.Valid b1 := by unfold Bytes.Valid; rw [hbs, hba]; exact Nat.le_trans hP.le.1 hP.le.2
+  obtain ⟨dd, ee, hrun, _⟩ := PNTotal.parseDigits_tot ⟨hd, hreach⟩ k r b1 hv1
+  have hR1 := Run.of c k r hd hsepr b1 ee dd hv1 hrun
+  have hend := partEnabled_end c k hks hd hf (hreach k) r hsepr hsepd s a z hP b1 ee dd hbs hba h0 hR1
+  have hs := peek_spec c k b1 b0 v hv1 hp
+  have hb0s : b0.slc = s := by rw [hs.1]; exact hbs
+  have hN : ∀ x, s[b0.index]? = some x → c.isSep x = false := by
+    intro x hx
+    cases hcs : c.isSep x with
+    | false => rfl
+    | true =>
+      exfalso
+      -- the run from `b1` would stop right here, on a separator — but it ends at the terminator
+      have hvx : v = some x := by rw [hs.2.2.2.2.2.2, hb0s]; exact hx
+      unfold parseDigits at hrun
+      rw [parseDigitsLoop.eq_2, hp, hvx] at hrun
+      simp only [bind, Except.bind, hsepr x hcs, pure, Except.pure, Except.ok.injEq, Prod.mk.injEq] at hrun
+      rw [← hrun.2] at hend
+      rw [hend] at hx
+      rw [(hP.term x hx).1] at hcs; cases hcs
+  refine ⟨hN, ?_⟩
+  intro e ds hR
+  have heq := parseDigitsLoop_after_peek c k r (hreach k) b1 b0 v hv1 hp (by rw [hb0s]; exact hN) b1.slc.length
+  have h2 := hR.run
+  unfold parseDigits at h2 hrun
+  rw [hs.1, heq, hrun] at h2
+  simp only [Except.ok.injEq, Prod.mk.injEq] at h2
+  rw [← h2.2]; exact hend
+
+/-- length of the sign `parse_sign!` consumes (if it succeeds) -/
+def signLen (l : List Nat) : Nat :=
+  match l.head? with
+  | some 43 => 1
+  | some 45 => 1
+  | _ => 0
+
+/-- the exponent part behind the terminator `y` of the mantissa: if the byte at `y` is the exponent character, the
+bytes behind it and the optional sign form an enabled exponent part -/
+def ExpEnabled (c : Cfg) (o : POpts) (s : List Nat) (y : Nat) : Prop :=
+  ∀ x, s[y]? = some x → matchesExp c o x = true →
+    ∃ zE, PartEnabled c .exponent c.exponentRadix s (y + 1 + signLen (s.drop (y + 1))) zE
+
+/-- **every separator of `s` is at a position the flags enable**: the integer part (behind the optional sign), the
+fraction part (behind the decimal point that terminates the integer part) and the exponent part (behind the exponent
+character and its optional sign) each satisfy the documented position rules of their component -/
+def DocEnabled (c : Cfg) (o : POpts) (s : List Nat) : Prop :=
+  ∃ zI, PartEnabled c .integer c.mantissaRadix s (signLen s) zI ∧
+    (s[zI]? = some o.dp → ∃ zF, PartEnabled c .fraction c.mantissaRadix s (zI + 1) zF ∧ ExpEnabled c o s zF) ∧
+    (s[zI]? ≠ some o.dp → ExpEnabled c o s zI)
+
+/-- `parse_sign!` consumes exactly `signLen` bytes when it succeeds -/
+theorem parseSign_signLen (c : Cfg) (hd : c.debug = false) (np rq : Bool) (ip ms : String) (b b1 : Bytes) (neg : Bool)
+    (h : parseSign c np rq ip ms b = .ok (neg, b1)) :
+    b1 = { b with index := b.index + signLen (b.slc.drop b.index) } := by
+  unfold parseSign at h
+  simp only [step_release c hd, bind, Except.bind, pure, Except.pure, Bytes.first] at h
+  have hh : (b.slc.drop b.index).head? = b.slc[b.index]? := by simp [List.head?_drop]
+  unfold signLen
+  rw [hh]
+  split at h
+  · next heq =>
+    split at h
+    · simp only [Except.ok.injEq, Prod.mk.injEq] at h; rw [← h.2, heq]; rfl
+    · cases h
+  · next heq =>
+    simp only [Except.ok.injEq, Prod.mk.injEq] at h; rw [← h.2, heq]; rfl
+  · next h43 h45 =>
+    split at h
+    · cases h
+    · simp only [Except.ok.injEq, Prod.mk.injEq] at h
+      rw [← h.2]
+      cases hv : b.slc[b.index]? with
+      | none => simp
+      | some x =>
+        have h1 : x ≠ 43 := by intro e; subst e; exact h43 hv
+        have h2 : x ≠ 45 := by intro e; subst e; exact h45 hv
+        split
+        · next he => simp only [Option.some.injEq] at he; exact absurd he h1
+        · next he => simp only [Option.some.injEq] at he; exact absurd he h2
+        · simp
+
+/-- **`DocEnabled` ⟹ `NonStuck`** -/
+theorem nonStuck_of_docEnabled (c : Cfg) (o : POpts) (hG : GenStrip c o) (s : List Nat) (hD : DocEnabled c o s) :
+    NonStuck c o s := by
+  obtain ⟨zI, hPI, hdpE, hnodpE⟩ := hD
+  intro neg b1 v b0 hps hp
+  unfold parseMantissaSign at hps
+  have hb1 := parseSign_signLen c hG.rel.debug _ _ _ _ _ _ _ hps
+  simp only [new_slc, new_index, List.drop_zero, Nat.zero_add] at hb1
+  have hb1s : b1.slc = s := by rw [hb1]
+  have hb1i : b1.index = signLen s := by rw [hb1]
+  have hcnt1 : b1.ic = 0 ∧ b1.fc = 0 ∧ b1.ec = 0 := by rw [hb1]; exact ⟨rfl, rfl, rfl⟩
+  obtain ⟨hN0, hIend⟩ := int_after_peek c .integer (by decide) hG.rel.debug hG.format hG.rel.reach _ hG.sepDigM
+    hG.sepNotDigit s _ zI hPI b1 b0 v hb1s hb1i (by intro hc; simp [Bytes.iterCount, hc, hcnt1.1]) hp
+  have hv1 : Bytes.Valid b1 := by
+    unfold Bytes.Valid; rw [hb1s, hb1i]; exact Nat.le_trans hPI.le.1 hPI.le.2
+  have hsp := peek_spec c .integer b1 b0 v hv1 hp
+  have hb0s : b0.slc = s := by rw [hsp.1]; exact hb1s
+  -- the exponent part
+  have hexpN : ∀ (f : Bytes) (y : Nat), f.slc = s → f.index = y → f.ec = 0 → ExpEnabled c o s y → ExpNormal c o s f := by
+    intro f y hfs hfi hfe hE hfx r hr e ds hR x hx
+    rw [firstIs_exp, hfs, hfi] at hfx
+    cases hz : s[y]? with
+    | none => rw [hz] at hfx; cases hfx
+    | some w =>
+      rw [hz] at hfx
+      obtain ⟨zE, hPE⟩ := hE w hz hfx
+      unfold parseExponentSign at hr
+      have hr2 := parseSign_signLen c hG.rel.debug _ _ _ _ _ _ _ hr
+      simp only [hfs, hfi] at hr2
+      have hend := partEnabled_end c .exponent (by decide) hG.rel.debug hG.format (hG.rel.reach _) _ hG.sepDigE
+        hG.sepNotDigit s _ zE hPE r.2 e ds (by rw [hr2]) (by rw [hr2])
+        (by intro hc; rw [hr2]; simp [Bytes.iterCount, hc, hfe]) hR
+      rw [hend] at hx
+      exact (hPE.term x hx).1
+  refine ⟨hN0, ?_⟩
+  intro eI dsI hRI
+  have heIi := hIend eI dsI hRI
+  have heI : eI.slc = s := by rw [hRI.slc]; exact hb0s
+  have heIc : eI.fc = 0 ∧ eI.ec = 0 := by
+    rw [hRI.eq]
+    simp [advS, hsp.2.2.1, hsp.2.2.2.1, hcnt1.2.1, hcnt1.2.2]
+  refine ⟨?_, ?_, ?_⟩
+  · intro x hx; rw [heIi] at hx; exact (hPI.term x hx).1
+  · intro hdp eF dsF hRF
+    rw [heIi] at hdp
+    obtain ⟨zF, hPF, hEF⟩ := hdpE hdp
+    have hendF := partEnabled_end c .fraction (by decide) hG.rel.debug hG.format (hG.rel.reach _) _ hG.sepDigM
+      hG.sepNotDigit s _ zF hPF { eI with index := eI.index + 1 } eF dsF heI (by simp only; rw [heIi])
+      (by intro hc; simp [Bytes.iterCount, hc, heIc.1]) hRF
+    have heF : eF.slc = s := by rw [hRF.slc]; exact heI
+    have heFc : eF.ec = 0 := by rw [hRF.eq]; simp [advS, heIc.2]
+    refine ⟨?_, hexpN eF zF heF hendF heFc hEF⟩
+    intro x hx; rw [hendF] at hx; exact (hPF.term x hx).1
+  · intro hnodp
+    rw [heIi] at hnodp
+    exact hexpN eI zI heI heIi heIc.2 (hnodpE hnodp)
+
 end LexVerif.Proof.Sep
